@@ -2,12 +2,130 @@ package main
 
 import (
 	"fmt"
+	"reflect"
 	"strings"
+	"time"
 
 	"github.com/influxdata/influxql"
 )
 
-// Canonical S-expressions of influxql ASTs (mirrored by lean/Oracle/Sexp.lean).
+// Canonical S-expressions of influxql ASTs (mirrored by lean/Oracle/Sexp.lean and SexpStmt.lean).
+
+// ---- statements: a reflective dump of every exported field, in declaration order ----
+//
+//	struct            (TypeName f1 f2 ...)           pointer to struct: (none) when nil
+//	*int, *Duration   (none) | (some v)
+//	Expr / Literal    writeExpr (nil: (none))
+//	slices            (list e1 e2 ...)               (nil and empty are both "(list)")
+//	FillValue         (none) | (int v) | (num <NumberLiteral text>)
+//	*time.Location    (none) | (loc <name>)
+//	string s:<hex>; bool true/false; integers decimal (Token, Privilege, FillOption, Duration included)
+
+var exprType = reflect.TypeOf((*influxql.Expr)(nil)).Elem()
+
+func sexpStatement(s influxql.Statement) string {
+	var b strings.Builder
+	writeValue(&b, reflect.ValueOf(s))
+	return b.String()
+}
+
+func sexpStatements(ss []influxql.Statement) string {
+	var b strings.Builder
+	b.WriteString("(query")
+	for _, s := range ss {
+		b.WriteByte(' ')
+		writeValue(&b, reflect.ValueOf(s))
+	}
+	b.WriteByte(')')
+	return b.String()
+}
+
+func writeValue(b *strings.Builder, v reflect.Value) {
+	if !v.IsValid() {
+		b.WriteString("(none)")
+		return
+	}
+	t := v.Type()
+	// expressions (static interface types Expr / Literal, or concrete expression nodes)
+	if t.Implements(exprType) {
+		if (t.Kind() == reflect.Interface || t.Kind() == reflect.Ptr) && v.IsNil() {
+			b.WriteString("(none)")
+			return
+		}
+		writeExpr(b, v.Interface().(influxql.Expr))
+		return
+	}
+	switch x := v.Interface().(type) {
+	case *time.Location:
+		if x == nil {
+			b.WriteString("(none)")
+		} else {
+			b.WriteString("(loc " + encStr(x.String()) + ")")
+		}
+		return
+	case time.Duration:
+		fmt.Fprintf(b, "%d", int64(x))
+		return
+	}
+	switch t.Kind() {
+	case reflect.Interface:
+		if v.IsNil() {
+			b.WriteString("(none)")
+			return
+		}
+		if t.NumMethod() == 0 { // interface{}: the fill value
+			switch x := v.Interface().(type) {
+			case int64:
+				fmt.Fprintf(b, "(int %d)", x)
+			case float64:
+				b.WriteString("(num " + encStr((&influxql.NumberLiteral{Val: x}).String()) + ")")
+			default:
+				fmt.Fprintf(b, "(unknown %T)", x)
+			}
+			return
+		}
+		writeValue(b, v.Elem())
+	case reflect.Ptr:
+		if v.IsNil() {
+			b.WriteString("(none)")
+			return
+		}
+		if t.Elem().Kind() == reflect.Struct {
+			writeValue(b, v.Elem())
+			return
+		}
+		b.WriteString("(some ")
+		writeValue(b, v.Elem())
+		b.WriteByte(')')
+	case reflect.Struct:
+		b.WriteString("(" + t.Name())
+		for i := 0; i < t.NumField(); i++ {
+			if t.Field(i).PkgPath != "" { // unexported
+				continue
+			}
+			b.WriteByte(' ')
+			writeValue(b, v.Field(i))
+		}
+		b.WriteByte(')')
+	case reflect.Slice:
+		b.WriteString("(list")
+		for i := 0; i < v.Len(); i++ {
+			b.WriteByte(' ')
+			writeValue(b, v.Index(i))
+		}
+		b.WriteByte(')')
+	case reflect.String:
+		b.WriteString(encStr(v.String()))
+	case reflect.Bool:
+		fmt.Fprintf(b, "%v", v.Bool())
+	case reflect.Int, reflect.Int8, reflect.Int16, reflect.Int32, reflect.Int64:
+		fmt.Fprintf(b, "%d", v.Int())
+	case reflect.Uint, reflect.Uint8, reflect.Uint16, reflect.Uint32, reflect.Uint64:
+		fmt.Fprintf(b, "%d", v.Uint())
+	default:
+		fmt.Fprintf(b, "(unknown %s)", t.String())
+	}
+}
 
 func sexpExpr(e influxql.Expr) string {
 	var b strings.Builder
